@@ -113,9 +113,11 @@ def _scalar(n: dict) -> st.SearchStrategy:
 @st.composite
 def instances(draw, node: dict, schemas: dict, depth: int = 4, allow_null: bool = True, union_pick=None) -> Any:
     n = resolve(node, schemas)
-    if allow_null and n.get("nullable") is True and draw(st.integers(0, 4)) == 0:
+    # an enum constrains null too: nullable/"null" admits null only when the enum lists it (or there is no enum)
+    null_ok = allow_null and ("enum" not in n or None in n["enum"])
+    if null_ok and n.get("nullable") is True and draw(st.integers(0, 4)) == 0:
         return None
-    if isinstance(n.get("type"), list) and "null" in n["type"] and allow_null and draw(st.integers(0, 4)) == 0:
+    if isinstance(n.get("type"), list) and "null" in n["type"] and null_ok and draw(st.integers(0, 4)) == 0:
         return None
     if "oneOf" in n or "anyOf" in n:
         variants = n.get("oneOf") or n.get("anyOf")
@@ -267,6 +269,8 @@ def conforms(doc: Any, node: dict, schemas: dict, depth: int = 0) -> bool:
     if depth > 30:
         return True
     if doc is None:
+        if "enum" in n and None not in n["enum"]:
+            return False
         return bool(n.get("nullable")) or (isinstance(n.get("type"), list) and "null" in n["type"]) or n == {}
     if "oneOf" in n or "anyOf" in n:
         return any(conforms(doc, v, schemas, depth + 1) for v in (n.get("oneOf") or n.get("anyOf")))
